@@ -601,3 +601,21 @@ func (w *World) SrcRecv(fd *ast.FuncDecl, n ast.Node) string {
 	re := regexp.MustCompile(`\b` + regexp.QuoteMeta(name) + `\.`)
 	return re.ReplaceAllString(s, "recv.")
 }
+
+// gtExpr returns e as a comparison written with the greater operand on the
+// left (`a > b`, `a >= b`), whichever way round the source spells it
+// (`b < a`, `b <= a`); other binary expressions are returned unchanged. Guard
+// recognisers use it so that a mirrored comparison is the same guard.
+func gtExpr(e ast.Expr) (*ast.BinaryExpr, bool) {
+	b, ok := ast.Unparen(e).(*ast.BinaryExpr)
+	if !ok {
+		return nil, false
+	}
+	switch b.Op {
+	case token.LSS:
+		return &ast.BinaryExpr{X: b.Y, OpPos: b.OpPos, Op: token.GTR, Y: b.X}, true
+	case token.LEQ:
+		return &ast.BinaryExpr{X: b.Y, OpPos: b.OpPos, Op: token.GEQ, Y: b.X}, true
+	}
+	return b, true
+}
